@@ -1,5 +1,134 @@
 """Helpers for checks that run calc sessions through the harness."""
+import json
+
+import sessions
+import vlib
+
+
+def _vals(st):
+    return st.get("vals") or []
 
 
 def scale_sessions(run, tier):
-    return {"evaluations": 0, "rule": "not yet wired", "sample": "n/a"}
+    """C15: sessions and programs whose size crosses what an instruction can
+    address.  Every statement must evaluate correctly or be refused with a
+    compile error; nothing may abort or run with wrapped addresses, and a
+    refused statement must leave the session as it was."""
+    cases = []
+    expect = []   # per session: function(results) -> list of problems
+
+    # S1: a refused big block must leave no trace
+    big = "{\n" + "\n".join("x = 1" for _ in range(17000)) + "\n}"
+    s1 = ["1 + 1", big, 'y = "hello"', "x", 'y + " world"', "z = 2", "z + 40"]
+
+    def e1(rs):
+        p = []
+        want = ["(VInt 2)", None, '(VStr "hello")', "VNil", '(VStr "hello world")', "(VInt 2)", "(VInt 42)"]
+        for i, (st, w) in enumerate(zip(rs, want)):
+            if w is None:
+                if not st.get("compile_err"):
+                    p.append("oversize block was not refused: %s" % json.dumps(st)[:300])
+            elif st.get("panic") or st.get("compile_err") or _vals(st) != [w]:
+                p.append("statement %d after a refused block: got %s want %s" % (i, json.dumps(st)[:300], w))
+        if len(rs) != len(want):
+            p.append("session stopped after %d statements" % len(rs))
+        return p
+    cases.append(s1)
+    expect.append(e1)
+
+    # S2: one constant per statement until the data segment is exhausted
+    n2 = 33000
+    s2 = ["7"] * n2
+
+    def e2(rs):
+        p = []
+        refused_at = None
+        for i, st in enumerate(rs):
+            if st.get("panic"):
+                p.append("statement %d aborted: %s" % (i, st["panic"][:200]))
+                break
+            if st.get("compile_err"):
+                if refused_at is None:
+                    refused_at = i
+            else:
+                if refused_at is not None:
+                    p.append("statement %d accepted after statement %d was refused" % (i, refused_at))
+                    break
+                if _vals(st) != ["(VInt 7)"]:
+                    p.append("statement %d gives %s, want 7" % (i, _vals(st)))
+                    break
+        if refused_at is None and not p:
+            p.append("33000 constants were all accepted (the data segment holds at most 32768 addressable entries)")
+        if len(rs) != n2 and not p:
+            p.append("session stopped after %d statements" % len(rs))
+        return p
+    cases.append(s2)
+    expect.append(e2)
+
+    # S3: function bodies around the jump range
+    def fn(n):
+        return "f = () -> {\na = 0\n" + "\n".join("a = a + 1" for _ in range(n)) + "\n}"
+    s3 = [fn(32000), "f()", fn(33000), "f()", "2 * 21"]
+
+    def e3(rs):
+        p = []
+        if len(rs) != 5:
+            return ["session stopped after %d statements: %s" % (len(rs), json.dumps(rs[-1])[:300] if rs else "")]
+        if rs[0].get("compile_err") or rs[0].get("panic"):
+            p.append("a 32000-statement function was refused or aborted: %s" % json.dumps(rs[0])[:200])
+        elif _vals(rs[1]) != ["(VInt 32000)"]:
+            p.append("32000-statement function returns %s" % _vals(rs[1]))
+        if rs[2].get("panic"):
+            p.append("33000-statement function aborted: %s" % rs[2]["panic"][:200])
+        elif not rs[2].get("compile_err"):
+            # accepted: then it must work
+            if _vals(rs[3]) != ["(VInt 33000)"]:
+                p.append("33000-statement function was accepted and returns %s" % _vals(rs[3]))
+        else:
+            if _vals(rs[3]) != ["(VInt 32000)"]:
+                p.append("after a refused redefinition f() gives %s, want the old function's 32000" % _vals(rs[3]))
+        if _vals(rs[4]) != ["(VInt 42)"]:
+            p.append("statement after the refusal gives %s" % _vals(rs[4]))
+        return p
+    cases.append(s3)
+    expect.append(e3)
+
+    # S4: code segment beyond 2^16 instructions, then define and call a function
+    def bigf(name):
+        return name + " = (a) -> {\n" + "\n".join("a = a + 1" for _ in range(22000)) + "\n}"
+    s4 = [bigf("fa"), bigf("fb"), bigf("fc"), "h = (a) -> a + 100", "h(1)", "fb(0)", "[h(2), fa(1)]"]
+
+    def e4(rs):
+        p = []
+        want = [None, None, None, None, "(VInt 101)", "(VInt 22000)", "(VArr [(VInt 102);(VInt 22001)])"]
+        if len(rs) != len(want):
+            return ["session stopped after %d statements: %s" % (len(rs), json.dumps(rs[-1])[:300] if rs else "")]
+        for i, (st, w) in enumerate(zip(rs, want)):
+            if st.get("panic"):
+                p.append("statement %d aborted: %s" % (i, st["panic"][:200]))
+            elif w is not None and not st.get("compile_err") and _vals(st) != [w]:
+                p.append("statement %d in a session with more than 2^16 instructions gives %s, want %s" % (i, _vals(st), w))
+        return p
+    cases.append(s4)
+    expect.append(e4)
+
+    res = sessions.run_sessions(cases, timeout_ms=120000)
+    total = 0
+    probs = []
+    for c, r, e in zip(cases, res, expect):
+        rs = r.get("results", [])
+        total += len(rs)
+        if r.get("hang"):
+            probs.append(("session hangs", c))
+            continue
+        for msg in e(rs):
+            probs.append((msg, c))
+    for msg, c in probs[:6]:
+        run.violation({"what": msg, "session_statements": len(c),
+                       "session_head": [s[:200] for s in c[:8]],
+                       "how": "harness session: statements compiled and run one by one on one VM"})
+    return {"evaluations": total,
+            "rule": "4 scale sessions: refused 17000-line block then ordinary statements; 33000 one-constant statements "
+                    "crossing 2^15 data entries; functions of 32000 / 33000 instructions; three 22000-instruction "
+                    "functions (code beyond 2^16) then a call; each statement must be correct or refused",
+            "sample": {"session": "S3", "head": s3[1], "sizes": [32000, 33000]}, "problems": len(probs)}
